@@ -3,7 +3,7 @@
 (* C04.  The harness parses inputs (the accepted renderings of spec/C04.tla, *)
 (* truncations, random byte strings) and logs, per accepted tree, one line   *)
 (* of trace.ndjson:                                                          *)
-(*   [id, len: bytes of the source,                                          *)
+(*   [id, base: base of the file in its file set, len: bytes of the source,  *)
 (*    nodes: <<[i0, i1, par, kind, aux]>>  every non-nil node (parents       *)
 (*           first; par = 0 for the Program; i0 / i1 = Idx0 / Idx1, -1 if    *)
 (*           the call panicked; aux = number of list children),              *)
@@ -11,7 +11,7 @@
 (*           n = node number, 0 = a nil node, -1 = an unknown node),         *)
 (*    wpanic: 1 if ast.Walk panicked]                                        *)
 (* The predicates:                                                           *)
-(*   SpansInFile   1 <= Idx0 <= Idx1 <= len + 1 for every node               *)
+(*   SpansInFile   base <= Idx0 <= Idx1 <= base + len for every node          *)
 (*   SpansNested   a node's span lies within its parent's span               *)
 (*   WalkBalanced  Enter/Exit are properly nested, follow the parent         *)
 (*                 relation, every node is entered exactly once, no nil and  *)
@@ -41,7 +41,7 @@ OpenSwitch(t, Dev) ==
 
 NodeInFile(t, n, Dev) ==
     IF Panicked(n) THEN PanicAllowed(n, Dev)
-    ELSE 1 <= n.i0 /\ n.i0 <= n.i1 /\ n.i1 <= t.len + 1
+    ELSE t.base <= n.i0 /\ n.i0 <= n.i1 /\ n.i1 <= t.base + t.len     \* base = 1 for a stand-alone file
 SpansInFile(t, Dev) == OpenSwitch(t, Dev) \/ \A k \in 1..Len(t.nodes) : NodeInFile(t, t.nodes[k], Dev)
 
 NodeNested(t, n, Dev) ==
